@@ -298,21 +298,48 @@ def nfa_canon(x):
     return x
 
 
-def run_nfa_query(n, q, others):
+def raw_nfa_query(n, q, others):
+    """One query on instance n -> outcome holding the object the call returned."""
     from automata.fa.dfa import DFA
     kind = q[0]
     if kind == "accepts":
         return outcome(lambda: n.accepts_input(q[1]))[:2]
     if kind == "stepwise":
-        return outcome(lambda: nfa_canon(list(itertools.islice(n.read_input_stepwise(q[1]), q[2]))))[:2]
+        return outcome(lambda: list(itertools.islice(n.read_input_stepwise(q[1]), q[2])))[:2]
     if kind == "eq":
         return outcome(lambda: n == others[q[1]])[:2]
     if kind == "from_nfa":
-        return outcome(lambda: nfa_canon(DFA.from_nfa(n, retain_names=q[1], minify=q[2])))[:2]
+        return outcome(lambda: DFA.from_nfa(n, retain_names=q[1], minify=q[2]))[:2]
     if kind == "elim":
-        return outcome(lambda: nfa_canon(n.eliminate_lambda()))[:2]
+        return outcome(lambda: n.eliminate_lambda())[:2]
     if kind == "reverse":
-        return outcome(lambda: nfa_canon(n.reverse()))[:2]
+        return outcome(lambda: n.reverse())[:2]
+    raise ValueError(kind)
+
+
+def canon_outcome(r):
+    return (r[0], nfa_canon(r[1])) if r[0] == "ok" else r
+
+
+def run_nfa_query(n, q, others):
+    return canon_outcome(raw_nfa_query(n, q, others))
+
+
+def wire_nfa_query(q, sy):
+    """Query on instance 0 of the pool [the NFA under test, others...] (coq/Model/D20.v dec_nquery)."""
+    kind = q[0]
+    if kind == "accepts":
+        return [1, 0, sy.word(q[1])]
+    if kind == "stepwise":
+        return [2, 0, sy.word(q[1]), q[2]]
+    if kind == "eq":
+        return [3, 0, 1 + q[1]]
+    if kind == "from_nfa":
+        return [4, 0, bool(q[2]), bool(q[1])]
+    if kind == "elim":
+        return [5, 0]
+    if kind == "reverse":
+        return [6, 0]
     raise ValueError(kind)
 
 
@@ -337,30 +364,102 @@ def rand_nfa_history(rng, ndef, nothers):
 
 
 def check_nfa_history(ctx, ndef, hist, other_defs, tag):
+    """Every answer on the used instance is compared (a) with a fresh copy (implementation alone) and (b) with the
+    memo model (coq/Model/NFACache.v through op 2 of property 20): the model's answers along the same history on the
+    same pool of instances, which must also equal the model's from-scratch answers and the C01/C09/C07/C08 models.
+    Booleans, yielded state sets and error kinds are compared exactly; automata through the verified comparators
+    (property 0) plus the state count."""
     from automata.fa.dfa import DFA
     n = mk_nfa(ndef)
     others = [mk_nfa(o) for o in other_defs]
-    problems = []
+    problems, confirmed = [], False
+    st = enc.Renum(enc.nfa_names(n))
+    sy = enc.SymMap(n.input_symbols)
+    raws = []
     for i, q in enumerate(hist):
-        got = run_nfa_query(n, q, others)
+        raw = raw_nfa_query(n, q, others)
+        got = canon_outcome(raw)
         fresh = run_nfa_query(mk_nfa(ndef), q, others)
         if got != fresh:
             problems.append(f"query #{i} {q}: {got!r:.200} on the used instance, {fresh!r:.200} on a fresh copy")
+            confirmed = True
+        raws.append(raw)
         ctx.tally("nfa_q_" + q[0])
+    # the memo model on the same pool: instance 0 = the NFA under test, 1.. = the operands of ==
+    same_sigma = [set(o.input_symbols) == set(n.input_symbols) for o in others]
+    pool = [enc.enc_nfa(n, st, sy)] + [enc.enc_nfa(o, None, sy if same else None) for o, same in zip(others, same_sigma)]
+    wq = [wire_nfa_query(q, sy) for q in hist]
+    ans = ctx.driver.batch([(20, 2, enc.tree([pool, wq]))])[0]
+    valids, stepped, pure, spec = ans
+    if not all(valids):
+        problems.append(f"the model's validity predicate rejects a definition of the pool: {valids}")
+    items, metas = [], []
+    for i, (q, raw, ms, mp, msp) in enumerate(zip(hist, raws, stepped, pure, spec)):
+        if ms != mp:
+            problems.append(f"query #{i} {q}: model answer along the history {ms!r:.200} differs from its from-scratch answer {mp!r:.200}")
+        if mp != msp:
+            problems.append(f"query #{i} {q}: memo model {mp!r:.200} differs from the stateless C01/C09/C07/C08 model {msp!r:.200}")
+        kind = q[0]
+        if ms[0] == 0:
+            if kind == "eq" and ms[1] == enc.MISMATCH and not same_sigma[q[1]]:
+                # different alphabets: __eq__ returns NotImplemented (Python then answers False); C09's row
+                if raw != ("ok", False):
+                    problems.append(f"query #{i} {q}: == across alphabets answered {raw!r:.100}")
+                continue
+            if raw != ("err", ms[1]):
+                problems.append(f"query #{i} {q}: implementation {canon_outcome(raw)!r:.200}, model error {ms[1]}")
+            continue
+        if raw[0] != "ok":
+            problems.append(f"query #{i} {q}: implementation raised {raw!r:.100}, model answers {ms!r:.200}")
+            continue
+        val = raw[1]
+        if kind in ("accepts", "eq"):
+            if ms != [1, 1 if val else 0] or not isinstance(val, bool):
+                problems.append(f"query #{i} {q}: implementation {val!r}, model {ms}")
+        elif kind == "stepwise":
+            got_sets = [sorted(st(x) for x in cfg) for cfg in val]
+            if ms != [2, got_sets]:
+                problems.append(f"query #{i} {q}: implementation yields {got_sets}, model {ms}")
+        elif kind == "from_nfa":
+            items.append((0, 1, enc.tree([enc.enc_dfa(val, None, sy), ms[1]])))
+            metas.append((i, q, val, ms[1]))
+        else:
+            items.append((0, 2, enc.tree([enc.enc_nfa(val, None, sy), ms[1]])))
+            metas.append((i, q, val, ms[1]))
     # after the whole history: determinisation still has the NFA's language (verified comparator)
-    st = enc.Renum(enc.nfa_names(n))
-    sy = enc.SymMap(n.input_symbols)
     dd = DFA.from_nfa(n)
-    a = ctx.driver.batch([(0, 3, enc.tree([enc.enc_nfa(n, st, sy), enc.enc_dfa(dd, None, sy)]))])[0]
+    items.append((0, 3, enc.tree([pool[0], enc.enc_dfa(dd, None, sy)])))
+    cmp_ans = ctx.driver.batch(items)
+    for (i, q, val, mtree), a in zip(metas, cmp_ans):
+        if q[0] == "from_nfa":
+            va, vb, size_impl, size_model, diff = a
+            # minify=True: the minimum for the result's own kind (C05/C07): the model's minimal DFA is partial
+            want = size_model + (1 if (q[2] and not val.allow_partial and mtree[5]) else 0)
+        else:
+            va, vb, diff = a
+            size_impl, want = len(val.states), len(mtree[0])
+        if not va or not vb:
+            problems.append(f"query #{i} {q}: result not valid (implementation {va}, model {vb})")
+        if diff != [1, []]:
+            w = sy.unword(diff[1][0]) if diff[0] == 1 and diff[1] else None
+            problems.append(f"query #{i} {q}: the implementation's result and the model's differ in language: {diff}, word {w!r}")
+            if w is not None and val.accepts_input(w) != mk_nfa(ndef).accepts_input(w[::-1] if q[0] == "reverse" else w):
+                confirmed = True    # the result disagrees with its own source on that word (implementation alone)
+        if size_impl != want:
+            problems.append(f"query #{i} {q}: the implementation's result has {size_impl} states, the model's {want}")
+    a = cmp_ans[-1]
     if a[0] != 1 or a[1] != 1 or a[2] != [1, []]:
         w = sy.unword(a[2][1][0]) if a[2][0] == 1 and a[2][1] else None
         problems.append(f"after the history DFA.from_nfa(nfa) differs from the NFA: comparator {a}, word {w!r}")
-    ctx.case(("nfa", enc.tree(enc.enc_nfa(n, st, sy)), repr(hist)), nontrivial=len(hist) >= 3,
+    touching = sum(1 for q in hist if q[0] != "reverse" and not (q[0] == "stepwise" and q[2] == 0))
+    if touching >= 2:
+        ctx.tally("nfa_memo_consulted_after_filled")
+    ctx.case(("nfa", enc.tree(pool[0]), repr(hist)), nontrivial=len(hist) >= 3,
              sample={"nfa": repr(ndef), "history": hist})
     if problems:
-        ctx.violation("NFA answers depend on the call history: " + "; ".join(problems)[:1500],
+        ctx.violation("NFA answers depend on the call history / disagree with the memo model: " + "; ".join(problems)[:1500],
                       {"kind": "nfa_history", "def": repr(ndef), "history": hist, "others": [repr(o) for o in other_defs],
-                       "problems": problems, "tag": tag}, confirmed=True)
+                       "problems": problems, "tag": tag}, confirmed=confirmed)
 
 
 # ---------------------------------------------------------------- fixed corner histories
